@@ -864,39 +864,6 @@ theorem mem_verdicts {env : Env} {sub : Query → Res} {d : Nat} {q : Query} {qi
     subst hf
     exact ⟨hk, rfl⟩
 
-/-- a DNSKEY RRset key with no DNSKEY record in the section comes from an orphan RRSIG -/
-theorem orphan_of_empty_group {sec : List Rec} {k : GKey} (hk : k ∈ groupKeys sec) (ht : k.2 = tDNSKEY)
-    (he : groupRecs sec k = []) : orphanDnskeyRrsigIn sec = true := by
-  obtain ⟨x, hx, hxk⟩ := mem_groupKeys hk
-  have hsig : x.isSig = true := by
-    cases hs : x.isSig with
-    | true => rfl
-    | false =>
-      exfalso
-      have : x ∈ groupRecs sec k := by
-        unfold groupRecs
-        simp [hx, hs, hxk]
-      rw [he] at this
-      simp at this
-  unfold orphanDnskeyRrsigIn
-  simp only [List.any_eq_true, Bool.and_eq_true, beq_iff_eq, Bool.not_eq_true', List.any_eq_false, not_and]
-  refine ⟨x, hx, ⟨hsig, ?_⟩, ?_⟩
-  · have : x.gkey.2 = k.2 := by rw [hxk]
-    simpa [Rec.gkey, Rec.gtype, hsig, ht] using this
-  · intro y hy hyt hyn
-    have hys : y.isSig = false := by simp [Rec.isSig, hyt, tDNSKEY, tRRSIG]
-    have : y ∈ groupRecs sec k := by
-      unfold groupRecs
-      have hk1 : x.gkey.1 = k.1 := by rw [hxk]
-      have hyk : y.gkey = k := by
-        rw [gkey_of_not_sig hys]
-        apply Prod.ext
-        · simpa [Rec.gkey, hyn] using hk1
-        · simp [hyt, ht]
-      simp [hy, hys, hyk]
-    rw [he] at this
-    simp at this
-
 /-- an RRSIG whose proof changes is the one its RRset's verdict points at -/
 theorem relabelOne_proof_sig (sec : List Rec) (vs : List (GKey × GV)) (i : Nat) (r : Rec) (p : Proof)
     (hs : r.isSig = true) (h0 : r.proof ≠ p) (h : (relabelOne sec vs i r).proof = p) :
